@@ -18,6 +18,7 @@ def run(F, G, tier, seed):
     routing.run_flagmono(chk, F)
     from ..rules import features
     features.run_valuekind(chk, F, classes=("UTAP::TypeChecker",))
+    features.run_stickyerr(chk, F)
     # the scanner's start condition is the one piece of lexer state that outlives a block: a label that ends
     # inside a comment must not turn the following blocks into comment text
     globalstate.run_startcond(chk, F, CG, Lexer(F))
